@@ -776,7 +776,9 @@ theorem specN_lit (F : FloatOps) (l : Lit) : SpecN F C (.lit l) := by
 theorem specN_id (F : FloatOps) (x : Name) (ty : Option Ty) : SpecN F C (.id x ty) := by
   intro a ρ v hr _
   simp only [mPat, hr.fetch, Decl, fin]
-  cases h : tyFail ty v <;> simp [eq_comm]
+  cases h : tyFail ty v
+  · simp [eq_comm]
+  · simp
 
 theorem specN_wild (F : FloatOps) (ty : Option Ty) : SpecN F C (.wild ty) := by
   intro a ρ v hr _
@@ -1166,7 +1168,9 @@ theorem frame_ents : ∀ (es : List Ent) (s : Src) (ρ : Env), Within (entVars e
         | none => exact Agree.refl _ _
         | some x => exact (Agree.refl _ ρ).set x v (by simp [entVars, hb])
       split
-      · exact hstep
+      · simp only [Within]; split
+        · exact Agree.refl _ _
+        · exact hstep
       · exact Within.trans hstep ((frame_ents es s _).mono (by intro x hx; simp [entVars, hx]))
 
 mutual
@@ -1185,7 +1189,9 @@ theorem frame_pat (F : FloatOps) : ∀ (p : Pat) (la il : Bool) (a : Acc) (ρ : 
     · trivial
     · have h : Agree (patVars (.id x ty)) ρ (ρ.set x ‹Val›) := (Agree.refl _ ρ).set x _ (by simp [patVars])
       split
-      · exact h
+      · simp only [Within]; split
+        · exact Agree.refl _ _
+        · exact h
       · exact within_fin _ _ _ _ _ h
   | .wild ty, la, il, a, ρ => by
     simp only [mPat]
